@@ -114,6 +114,17 @@ CHECKS = {
                 'lexical scoping model',
         'assumptions': T_ASSUME,
     },
+    'C11': {
+        'custom': lambda pid, tier, deadline: __import__('c11_check').check(pid, tier, deadline),
+        'engine': 'table-engine + static generator',
+        'rule': 'family (i): every operator that has analyze_traits (classical, convenience 2- and 3-argument, numeric repetitions, try_catch_*, enable/disable/state/action/control, '
+                'raw_string with a content rule, separated_seq, if_then) over itself at every child position with the other positions filled from {one, opt<one>, at<one>, failure, eof}; '
+                'family (ii): indirect recursion through ordered operator pairs (quick: classical operators; thorough: the full unary/binary menu); every table is compiled as an ordinary '
+                'static grammar and analyze<G>(-1) is asked; a loop witness is an input over {a,b,[} of length <=3 on which the reference re-enters the same (rule, position) or a repetition '
+                'body succeeds without progress, confirmed by the fuel-limited real run not terminating; violation = zero problems reported and a confirmed witness',
+        'assumptions': T_ASSUME + ['witnesses are limited to inputs of length <=3 over {a,b,[}: every enumerated rule consumes at most one byte per step, so shorter witnesses exist whenever any does'],
+        'technique': 'exhaustive enumeration of ill-formed grammar families; static analysis result of each compared with loop witnesses found by bounded exhaustive execution',
+    },
     'C12': {
         'units': lambda t: [dict(u_tree(t, k), shards=4) for k in range(7)],
         'rule': 'tables of <=3 rules over the classical operators, must and try_catch_*_return_false with throwing actions (aborted branches the run survives) '
@@ -141,6 +152,26 @@ CHECKS = {
                 'RFC 3986 Appendix A (lang/uri_ref.hpp); parse_error counts as reject, any other exception is a violation',
         'assumptions': ['lang/uri_ref.hpp is RFC 3986 Appendix A (cross-checked against a regex reference on 1.5M strings during development)'],
         'technique': 'exhaustive enumeration of bounded strings on the real grammar against an independent language-exact matcher',
+    },
+    'C10': {
+        'units': lambda t: [plain_unit('u_c10', 'units/c10.cpp', t)],
+        'engine': 'unit-domain',
+        'rule': '625 rule instantiations; ASCII/abnf classes and one/not_one/range/not_range/ranges: all 0-, 1- and 2-byte inputs; istring/string: every byte at every position and all truncations; '
+                'UTF-8: all sequences of length 0-3 x 22 rules, utf8::any on all 2^32 four-byte windows (quick too), core battery on all 2^32 windows (thorough); UTF-16 be/le: all units x boundary '
+                'second units and all surrogate-first pairs (thorough: all 2^32 pairs); UTF-32 be/le: boundary-structured values and 0..0x1100FF (thorough: all 2^32); uint8/16: all values x 7 masks '
+                'x 13+49 rules, uint32/64: byte-boundary structured values (thorough: all 2^32 uint32 values), all truncations; exact-size inputs ending at a PROT_NONE page; oracle: independent '
+                'RFC 3629 / RFC 2781 / Unicode D76 decoders and sets transcribed from doc/Rule-Reference.md',
+        'assumptions': ['oracle tables in units/c10.cpp; UTF-16/32 and binary rules line/column counting out of scope as documented'],
+        'technique': 'exhaustive enumeration of code-unit domains on the real rules against independent decoders',
+    },
+    'C17': {
+        'units': lambda t: [plain_unit('u_c17', 'units/c17.cpp', t)],
+        'engine': 'unit-domain',
+        'rule': 'utf8_append_utf32 for all 2^32 values; unhex_char/unhex_string over all hex strings up to the width of 8/16-bit targets and boundary strings for wider ones; unescape_x all digit '
+                'pairs; unescape_u all \\uXXXX spellings and \\U for 0..0x11FFFF; unescape_j all sequences of 1-3 escapes over 18 boundary spellings, all surrogate x surrogate pairs (thorough: all '
+                '2^32 pairs); unescape_c 3 tables x 256 characters; JSON string and the test grammar over piece sequences; oracle: independent RFC 3629 encoder and UTF-16 transcoder',
+        'assumptions': ['oracle functions in units/c17.cpp'],
+        'technique': 'exhaustive enumeration of code points / escape sequences on the real helpers against an independent encoder',
     },
     'C15': {
         'units': lambda t: [plain_unit('u_c15', 'units/c15.cpp', t)],
